@@ -91,6 +91,7 @@ def big_pipe(ctx, verdict, cases, name="segsegx"):
     drv = [dict(segs=[c["seg"]]) for c in cases]
     obs = list(vlib.run_driver(ctx, "segseglist", drv, for_tlc=False))
     exprs, sigs = [], []
+    sym_exprs, sym_cases = [], []
     for c, o in zip(cases, obs):
         parts = []
         if o["ev"] != "ok":
@@ -98,6 +99,17 @@ def big_pipe(ctx, verdict, cases, name="segsegx"):
         rows = o.get("rows", [])
         if ctx.quick:                  # 5 of the 8 symmetries (identity, first / second reversed, swapped, swapped + both reversed)
             rows = [rows[j] for j in (0, 1, 2, 4, 7)] if len(rows) == 8 else rows
+        # "the answer does not depend on the order of the two segments or the direction of either": the class and the SET of
+        # reported points are the same in every symmetry (integer-grid families; points are named by small integers, one per
+        # distinct exact value, the classes by 0..2 - the equalities are evaluated by the model checker like everything else)
+        if not c["fam"].startswith("float/") and len(rows) > 1 and all(r["ev"] == "ok" for r in rows):
+            ids = {}
+            def name(p):
+                return ids.setdefault(tuple(v["x"] for v in p), len(ids) + 1)
+            ans = ["<<%d, {%s}>>" % (("none", "point", "overlap").index(r["t"]) if r["t"] in ("none", "point", "overlap") else 9,
+                                      ", ".join(str(name(p)) for p in r["p"])) for r in rows]
+            sym_exprs.append(" /\\ ".join("%s = %s" % (ans[0], a) for a in ans[1:]))
+            sym_cases.append(c)
         for row in rows:
             if row["ev"] != "ok" or any(v["t"] not in ("num", "big") for p in row["p"] for v in p):   # "big": finite, beyond the fixed-point field
                 parts.append("FALSE")
@@ -123,7 +135,11 @@ def big_pipe(ctx, verdict, cases, name="segsegx"):
                                                                                 "TRUE" if row["nr"] else "FALSE"))
         exprs.append(" /\\ ".join(parts) if parts else "TRUE")
         sigs.append("segseg|big|" + c["fam"])
-    return ec.apalache_obs(ctx, verdict, "SegSegX", exprs, cases, sigs, name, per_module=12)
+    bad = ec.apalache_obs(ctx, verdict, "SegSegX", exprs, cases, sigs, name, per_module=12)
+    ec.apalache_obs(ctx, verdict, "SegSegSym", sym_exprs, sym_cases,
+                    ["segseg|big|answer-depends-on-order-or-direction|" + c["fam"] for c in sym_cases], name, per_module=400)
+    ctx.coverage_extra["pairs_compared_across_symmetries"] = ctx.coverage_extra.get("pairs_compared_across_symmetries", 0) + len(sym_exprs)
+    return bad
 
 
 def crossing_error(seg, row):
@@ -151,13 +167,19 @@ def screened(ctx, n_pool, n_keep):
     pool = [c for c in ec.seg_pairs(ctx.seed + 77, n_pool, grids=(1 << 16, 1 << 20)) if c["fam"] in
             ("axis-cross", "near-parallel", "random", "tee") and c["seg"][2] != c["seg"][3]]
     obs = list(vlib.run_driver(ctx, "segseglist", [dict(segs=[c["seg"]]) for c in pool], for_tlc=False))
-    scored = []
+    scored, asym = [], []
     for c, o in zip(pool, obs):
-        e = max([crossing_error(c["seg"], row) for row in o.get("rows", [])] or [0.0])
+        rows = o.get("rows", [])
+        e = max([crossing_error(c["seg"], row) for row in rows] or [0.0])
         scored.append((e, c))
+        # pairs whose eight argument symmetries do not report the same class and points go to the model checker first as well
+        if len({(r.get("t"), tuple(sorted(tuple(v["x"] for v in p) for p in r.get("p", [])))) for r in rows}) > 1:
+            asym.append(c)
     scored.sort(key=lambda t: -t[0])
-    ctx.coverage_extra["screened_pool"] = dict(pool=len(pool), kept=n_keep, worst_apparent_relative_error=scored[0][0] if scored else 0)
-    return [dict(c, fam=c["fam"] + "/screened") for _, c in scored[:n_keep]]
+    ctx.coverage_extra["screened_pool"] = dict(pool=len(pool), kept=n_keep, worst_apparent_relative_error=scored[0][0] if scored else 0,
+                                               pairs_with_differing_symmetries=len(asym))
+    return ([dict(c, fam=c["fam"] + "/screened") for _, c in scored[:n_keep]]
+            + [dict(c, fam=c["fam"] + "/screened-asymmetric") for c in asym[:max(4, n_keep // 4)]])
 
 
 def tee_pool(ctx, n, n_keep):
